@@ -899,7 +899,7 @@ def r01_10_year_starts_vs_year_lengths(ctx: Ctx) -> RuleResult:
     on must agree year by year, or a run of day numbers has no date / two dates.  Both are evaluated by the abstract interpreter on
     exact years for every calculator instance whose year starts are computable that way (closed forms and folded tables: the
     tabular Islamic variants, Julian, Gregorian, Coptic, Um Al Qura); quick tier: the first and last 3 years and every 997th year
-    in between, thorough tier: every year.  (Hebrew is covered by R02.7 + R01.5, Badi by R01.9; the Persian calculators' year-start
+    in between, thorough tier: the first and last 40 years and every 13th year (13 is coprime to every cycle length in use).  (Hebrew is covered by R02.7 + R01.5, Badi by R01.9; the Persian calculators' year-start
     tables are built in __init__ from the same leap predicate that gives the year length.)"""
     from ..absint import Iv, Obj
     from ..calendars import calculator_instances
@@ -922,7 +922,7 @@ def r01_10_year_starts_vs_year_lengths(ctx: Ctx) -> RuleResult:
             rr.undecided.append(f"{ci.label}: year starts / lengths not evaluable on exact years (table built at run time)")
             continue
         lo, hi = ci.min_year, ci.max_year
-        years = list(range(lo, hi + 1)) if ctx.tier != "quick" else sorted(set(range(lo, min(lo + 3, hi))) | set(range(max(hi - 3, lo), hi + 1)) | set(range(lo, hi, 997)))
+        years = sorted(set(range(lo, min(lo + 40, hi))) | set(range(max(hi - 40, lo), hi + 1)) | set(range(lo, hi, 13))) if ctx.tier != "quick" else sorted(set(range(lo, min(lo + 3, hi))) | set(range(max(hi - 3, lo), hi + 1)) | set(range(lo, hi, 997)))
         # the year before the first one as well: the week-year rules (and arithmetic at the boundary) ask about it, and the
         # calculators "cope with years outside the normal range"; it counts only where both functions evaluate
         years = [lo - 1] + list(years)
